@@ -30,7 +30,7 @@ type ShapeKey = (i16, i16, Canon, Option<String>);
 
 // ---- raw -> proto -> raw --------------------------------------------------------------------------------------
 fn forward(m: &RLib, ctx: &mut Ctx) -> Result<(), String> {
-    let built = build(m);
+    let built = crate::gen::rawlib::build_named(m, true);
     let plib = built.lib.to_proto().map_err(|e| format!("to_proto failed: {:?}", e))?;
     // exported cells: each after the cells it instantiates
     let pos: BTreeMap<&str, usize> = plib.cells.iter().enumerate().map(|(i, c)| (c.name.as_str(), i)).collect();
@@ -75,14 +75,19 @@ fn forward(m: &RLib, ctx: &mut Ctx) -> Result<(), String> {
     for c in back.cells.iter() {
         cells.insert(c.read().map_err(|_| "lock")?.name.clone(), c.clone());
     }
-    for c in &m.cells {
+    for (ci, c) in m.cells.iter().enumerate() {
         let cell = cells.get(&c.name).ok_or_else(|| format!("cell {} missing after the round trip", c.name))?.read().map_err(|_| "lock")?;
+        // the names the views were built with (they need not be the cell's name)
+        let (built_layout_name, built_abs_name) = {
+            let b = built.cells[ci].read().map_err(|_| "lock")?;
+            (b.layout.as_ref().map(|l| l.name.clone()), b.abs.as_ref().map(|a| a.name.clone()))
+        };
         if cell.layout.is_some() != c.has_layout || cell.abs.is_some() != c.abs.is_some() {
             return Err(format!("cell {}: views changed (layout {} -> {}, abstract {} -> {})", c.name, c.has_layout, cell.layout.is_some(), c.abs.is_some(), cell.abs.is_some()));
         }
         if let Some(layout) = &cell.layout {
-            if layout.name != c.name {
-                return Err(format!("layout name {} came back as {}", c.name, layout.name));
+            if Some(&layout.name) != built_layout_name.as_ref() {
+                return Err(format!("cell {}: layout name {:?} came back as {}", c.name, built_layout_name, layout.name));
             }
             let mut want: BTreeMap<ShapeKey, usize> = BTreeMap::new();
             for s in &c.shapes {
@@ -126,7 +131,7 @@ fn forward(m: &RLib, ctx: &mut Ctx) -> Result<(), String> {
         }
         if let (Some(a), Some(ga)) = (&c.abs, &cell.abs) {
             let go: Vec<P> = ga.outline.points.iter().map(|p| (p.x as i64, p.y as i64)).collect();
-            if go != a.outline || ga.name != c.name {
+            if go != a.outline || Some(&ga.name) != built_abs_name.as_ref() {
                 return Err(format!("cell {}: abstract outline/name changed: {:?} {:?}", c.name, ga.name, go));
             }
             if ga.ports.len() != a.ports.len() {
@@ -208,7 +213,7 @@ fn gen_message(src: &mut Src) -> (proto::Library, Vec<(i16, i16, i16)>) {
         let mut cell = proto::Cell { name: name.clone(), ..Default::default() };
         let has_layout = ci == 0 || !src.prob(1, 5);
         if has_layout {
-            let mut lay = proto::Layout { name: name.clone(), ..Default::default() };
+            let mut lay = proto::Layout { name: if src.prob(1, 3) { format!("{}_layout", name) } else { name.clone() }, ..Default::default() };
             // unique (number, purpose) per list
             let mut used: Vec<(i64, i64)> = vec![];
             for k in 0..src.usize_in(0, 3) {
@@ -239,7 +244,7 @@ fn gen_message(src: &mut Src) -> (proto::Library, Vec<(i16, i16, i16)>) {
         }
         if !has_layout || src.prob(1, 3) {
             let (w, h) = (src.i64_in(5, 300), src.i64_in(5, 300));
-            let mut abs = proto::Abstract { name: name.clone(), outline: Some(proto::Polygon { net: String::new(), vertices: vec![ppt((0, 0)), ppt((w, 0)), ppt((w, h)), ppt((0, h))] }), ..Default::default() };
+            let mut abs = proto::Abstract { name: if src.prob(1, 3) { format!("{}_abs", name) } else { name.clone() }, outline: Some(proto::Polygon { net: String::new(), vertices: vec![ppt((0, 0)), ppt((w, 0)), ppt((w, h)), ppt((0, h))] }), ..Default::default() };
             for pi in 0..src.usize_in(0, 2) {
                 let mut port = proto::AbstractPort { net: format!("p{}", pi), ..Default::default() };
                 let mut idx: Vec<usize> = (0..tab.len()).collect();
